@@ -91,6 +91,13 @@ def build_go(race=False):
             if p.returncode != 0:
                 raise Infra("go build %s failed (repository or harness does not compile):\n%s" % (name, p.stderr[-4000:]))
             outs[name] = out
+        # synctest-based families are a test binary (testing/synctest needs *testing.T)
+        out = os.path.join(BUILD, "bin", "storetrace")
+        p = run([GO, "test", "-c", "-modfile=" + modfile, "-tags", "verif", "-o", out, "./storetrace"],
+                cwd=os.path.join(VERIF, "harness"), env=goenv(), timeout=1200)
+        if p.returncode != 0:
+            raise Infra("go test -c storetrace failed (repository or harness does not compile):\n%s" % p.stderr[-4000:])
+        outs["storetrace"] = out
         # the repository's own CLI (C18)
         out = os.path.join(BUILD, "bin", "setec-cli")
         p = run([GO, "build", "-o", out, "./cmd/setec"], cwd=REPO, env=goenv(), timeout=1200)
@@ -223,7 +230,11 @@ def run_shard(bins, sh, tmp, idx, keep_trace=False):
     t0 = time.time()
     env = dict(os.environ)
     env.setdefault("GOMEMLIMIT", "4GiB")
-    p = run(cmd, env=env, timeout=3600)
+    if sh.binary == "storetrace":
+        env["VERIF_TRACE_ARGS"] = json.dumps(cmd[1:])
+        p = run([cmd[0], "-test.run", "^TestTrace$", "-test.timeout", "50m"], env=env, timeout=3600)
+    else:
+        p = run(cmd, env=env, timeout=3600)
     if p.returncode != 0:
         raise Infra("harness %s failed (%d): %s" % (" ".join(cmd), p.returncode, p.stderr[-3000:]))
     with open(trace) as f:
